@@ -1,2 +1,2 @@
-(* translator failed: feeder loop of foldfilter feeder not found *)
+(* translator failed: feeder loop of cache Input not found *)
 Definition translator_failed : True := 0.
